@@ -145,6 +145,9 @@ func Explore(ctx context.Context, sc *Scenario, bound int, stop func() bool, onV
 					st.MaxPoints = len(run.Points)
 				}
 				st.Deadlocks += int64(run.Deadlocks)
+				if run.Blocks > 0 {
+					st.Blocked++
+				}
 				if run.HorizonHit {
 					st.HorizonHits++
 				}
